@@ -217,7 +217,11 @@ CLAIMS["C11"] = {
             "sub-collection W of the transaction log's node records written to the database (any subset, any order), every node of the "
             "trie still reads, as of epoch e, exactly as before (partial_commit_invisible; modulo the parent field no proof reads); "
             "keys new in the epoch resolve to not-found at e; the database is untouched before the commit; once the whole log is "
-            "written the storage represents the new trie (full_commit_visible). Tied to the Rust by exhaustive/randomised partial "
+            "written the storage represents the new trie (full_commit_visible). REQUEST LEVEL (Thm/C11b): every proof generator reads "
+            "the store only through get-node-as-of-epoch and never the parent field (reads_congr, audit_congr), so a directory "
+            "instance opened on the partially written storage — old epoch record, ANY part of the commit's node records, any "
+            "value states of the unfinished epoch — returns the identical epoch hash and the identical answer to every lookup, "
+            "key-history and audit request as the instance before the publish (partial_commit_requests). Tied to the Rust by exhaustive/randomised partial "
             "application of real commit batches with fresh instances and the property's statement as oracle.",
     "note": BASE_NOTE + "The theorem is about node records; value states of the unfinished epoch are invisible because readers filter by "
             "epoch <= the epoch record (checked by the oracle, modelled in Dir.stateLeq / keyHistory). Hypotheses added by the proof: the "
